@@ -172,24 +172,28 @@ def evaluate(case, obs, sim, monitors):
     return probs
 
 
-def k24_eligible(case):
-    """input predicate of finding K24: on a side whose stream is reordered (delay / permute / late duplicate), a folder
-    path is vacated by a folder rename and later taken by another folder"""
+def reuse_sides(case):
+    """sides whose user takes a path again that another object of that side held earlier in the history (delete + create,
+    rename away + rename onto, ... of files or folders)"""
+    out = set()
     for side in (0, 1):
-        if not set(case["manglers"][side]) & set(MANGLERS_STABLE):
-            continue
-        moved_from = set()
+        vacated = set()
         for e in case["sched"]:
             if e[0] != "U" or e[1]["side"] != side:
                 continue
             op = e[1]
-            if op["op"] == "rendir":
-                if op["to"] in moved_from:
-                    return True
-                moved_from.add(op["path"])
-            elif op["op"] == "mkdir" and op["path"] in moved_from:
-                return True
-    return False
+            taken = op.get("to") if op["op"] in ("rename", "rendir") else (op["path"] if op["op"] in ("create", "mkdir") else None)
+            if taken is not None and taken in vacated:
+                out.add(side)
+            if op["op"] in ("delete", "rmdir", "rename", "rendir"):
+                vacated.add(op["path"])
+    return out
+
+
+def k24_eligible(case):
+    """input predicate of finding K24: on a side whose stream is reordered (delay / permute / late duplicate), a path that
+    one object vacated is taken by another object - a stale event then shows two objects at one path"""
+    return any(set(case["manglers"][side]) & set(MANGLERS_STABLE) for side in reuse_sides(case))
 
 
 def k28_sides(case):
@@ -228,7 +232,7 @@ def make(seed, i, flavours, seek=False):
     # places a moved folder back at its old path makes the engine write that folder's entry off when another folder is
     # created there (finding K24)
     stable_ok = seek or not case["family"].startswith("REUSE")
-    echo_sides = set() if seek else k28_sides(case)     # no late delivery of a folder-rename echo in the main round (K28)
+    echo_sides = set() if seek else (k28_sides(case) | reuse_sides(case))   # main round: no late delivery where K28 / K24 apply
     for side in (0, 1):
         pool = list(MANGLERS_ALL) + (list(MANGLERS_STABLE) if case["flavour"][side] != "p" and stable_ok
                                      and side not in echo_sides else [])
